@@ -19,11 +19,21 @@ Inductive case :=
 (* FHDR.MarshalBinary of a header value (its unexported FOptsLen may be stale) *)
 | CFhdrEnc (h : fhdr) (o : outcome (list N))
 (* CFList.UnmarshalBinary of 16 arbitrary octets, then MarshalBinary of what was decoded *)
-| CCFListDec (bs : list N) (o : outcome cflist) (o_re : outcome (list N)).
+| CCFListDec (bs : list N) (o : outcome cflist) (o_re : outcome (list N))
+(* JoinAcceptPayload.UnmarshalBinary of 12 / 28 (or other) octets, then MarshalBinary of what was decoded *)
+| CJoinAcceptDec (bs : list N) (o : outcome payload) (o_re : outcome (list N)).
 
 Definition oeqb := outcome_eqb bytes_eqb.
 Definition cfeqb := outcome_eqb cflist_eqb.
 Definition peqb := outcome_eqb macpl_eqb.
+Definition pleqb := outcome_eqb payload_eqb.
+
+(* the octets a conformant sender would have sent for the same fields: RFU parts zero
+   (RxDelay bits 7..4; octets 12..14 of a channel-mask CFList) *)
+Definition ja_rfu_zero (bs : list N) : list N :=
+  firstn 11 bs ++ [N.land (nth 11 bs 0) 15] ++
+  (let cf := skipn 12 bs in
+   if Nat.eqb (length cf) 16 && (nth 15 cf 0 =? 1) then firstn 12 cf ++ [0; 0; 0; 1] else cf).
 
 Definition check (c : case) : N :=
   match c with
@@ -58,8 +68,9 @@ Definition check (c : case) : N :=
   | CFhdrEnc h o =>
     code (oeqb (fhdr_marshal h) o)
          (match items_marshal (fopts h) with
-          | Ok opts => if (length opts <=? 15)%nat && id_ok' 4 (devaddr h) && (fcnt h <? 2 ^ 32)
-                       then oeqb o (Ok (spec_fhdr h opts)) else true
+          | Ok opts => if (length opts <=? 15)%nat
+                       then if id_ok' 4 (devaddr h) && (fcnt h <? 2 ^ 32) then oeqb o (Ok (spec_fhdr h opts)) else true
+                       else is_err o      (* more than 15 octets of FOpts do not fit the 4-bit FOptsLen: refused, never wrapped (C07-3) *)
           | _ => true
           end)
   | CCFListDec bs o o_re =>
@@ -74,6 +85,18 @@ Definition check (c : case) : N :=
           then (* channels: every octet is a field, the value is the octets *)
                oeqb o_re (Ok bs) && match o with Ok l => option_eqb bytes_eqb (spec_cflist l) (Some bs) | _ => false end
           else true)
+  | CJoinAcceptDec bs o o_re =>
+    code (pleqb (joinaccept_unmarshal bs) o &&
+          match o with Ok p => oeqb (payload_marshal p) o_re | _ => true end)
+         (if Nat.eqb (length bs) 12 || Nat.eqb (length bs) 28
+          then let z := ja_rfu_zero bs in
+               pleqb o (joinaccept_unmarshal z) && oeqb o_re (Ok z) &&
+               match o with
+               | Ok p => if Nat.eqb (length bs) 12 || (nth 27 bs 0 <? 2)     (* CFList types 0 and 1 are specified *)
+                         then option_eqb bytes_eqb (frame_spec_bytes p) (Some z) else true
+               | _ => false
+               end
+          else is_err o)
   | CDlSettings b o rx2 rx1 re =>
     code (let '(o', a, c) := dec_dlsettings b in Bool.eqb o o' && (a =? rx2) && (c =? rx1) && outcome_eqb N.eqb (enc_dlsettings o rx2 rx1) re)
          (let l := unpack L_DLSettings b in
